@@ -67,7 +67,7 @@ def chunked(lines, rnd):
     return out
 
 
-def check_pair(left, right, form, fn, options, acc, chunk_seed=0):
+def check_pair(left, right, form, fn, options, acc, chunk_seed=0, objects=None):
     case = {'left': left, 'right': right, 'form': form, 'chunk_seed': chunk_seed}
     if form == 'chunks':
         r = random.Random(chunk_seed)
@@ -83,6 +83,8 @@ def check_pair(left, right, form, fn, options, acc, chunk_seed=0):
             left = ['']
         if not right:
             right = ['']
+    elif form == 'array-again':
+        a, b = objects  # the very objects of the earlier call, edited in place since
     elif form == 'array':
         a, b = list(left), list(right)
     elif form in ('array-str', 'str-array'):
@@ -134,6 +136,19 @@ def check_pair(left, right, form, fn, options, acc, chunk_seed=0):
         return
     acc.count('reconstructions')
     acc.count('blocks_seen', len(res))
+    if form == 'array' and chunk_seed and isinstance(b, list):
+        # history: the caller changes the SAME array objects in place and asks again - the answer is about their present content
+        r = random.Random(chunk_seed)
+        for side in (b, a):
+            op = r.random()
+            if op < 0.4 or not side:
+                side.insert(r.randint(0, len(side)), r.choice(['edited', 'zz', '']))
+            elif op < 0.7:
+                side[r.randrange(len(side))] = 'changed'
+            else:
+                del side[r.randrange(len(side))]
+        acc.count('same_objects_after_in_place_edit')
+        check_pair(list(a), list(b), 'array-again', fn, options, acc, chunk_seed=0, objects=(a, b))
 
 
 def all_lists(maxlen):
@@ -190,7 +205,7 @@ def run_shard(spec, acc):
     else:
         rnd = random.Random(spec['seed'] * 1000003 + spec['shard'] * 7919 + 113)
         words = ['a', 'b', 'c', 'd', '', 'line one', 'x = 1', '  indented', 'ü']
-        for _ in range(spec['n']):
+        for case_ix in range(spec['n']):
             left = [rnd.choice(words) for _ in range(rnd.randint(0, 40))]
             right = list(left)
             for _ in range(rnd.randint(0, 8)):
@@ -210,7 +225,15 @@ def run_shard(spec, acc):
             if rnd.random() < 0.15:
                 right = [rnd.choice(words) for _ in range(rnd.randint(0, 40))]
             form = rnd.choice(['array', 'lf', 'crlf', 'array-str', 'str-array'])
-            check_pair(left, right, form, fn, options, acc)
+            check_pair(left, right, form, fn, options, acc, chunk_seed=rnd.randint(1, 10 ** 6) if form == 'array' else 0)
+            if case_ix % 100 == 7:
+                # long inputs without a common line for hundreds of lines (nothing to synchronise on), then a common tail
+                nl, nr = rnd.randint(101, 260), rnd.randint(101, 260)
+                tail = [f'same{k}' for k in range(rnd.randint(0, 3))]
+                long_l = [f'L{k % 97}' for k in range(nl)] + tail
+                long_r = [f'R{k % 89}' for k in range(nr)] + tail
+                check_pair(long_l, long_r, rnd.choice(['array', 'lf']), fn, options, acc)
+                acc.count('long_disjoint_inputs')
             if rnd.random() < 0.3 and len(left) >= 3:
                 check_pair(left, right, 'mixed', fn, options, acc, chunk_seed=rnd.randint(0, 10 ** 6))
             if rnd.random() < 0.3:
